@@ -626,7 +626,8 @@ def run(ck):
         ck.floor('R5.5', 0, 1, 'fn check_condition_type')
     else:
         ck.analysed(cc['path'])
-        IL = aeval.Interp(L, stubs={'type_desc': lambda a: a[0][1], 'qualified_name': lambda a: ('#str',)}, lenient=True)
+        # reporting is an effect, not part of the decision: Diagnostics::push is not entered
+        IL = aeval.Interp(L, stubs={'type_desc': lambda a: a[0][1], 'qualified_name': lambda a: ('#str',), 'Diagnostics::push': lambda a: ('#unit',)}, lenient=True)
         for t in TDS:
             try:
                 got = IL.call(cc['path'], [('#operand', t), ('#node',), ('#diagnostics',)], 0)
